@@ -80,6 +80,14 @@ func runCrashChild(args []string) error {
 	bits := c.Bits
 	mark(mf, "B -1")
 	var st *store.Store
+	if sc.Legacy != nil && sc.Legacy.CtxN > 0 {
+		guarded(func() error {
+			if st0, err0 := openAtCtx(deadlineCtx(sc.Legacy.CtxN), *dir, r.primaryType(), c.Imm, bits, c.IL, c.PL); err0 == nil {
+				st0.Close()
+			}
+			return nil
+		})
+	}
 	_, pan0 := guarded(func() error {
 		st, err = openAt(*dir, r.primaryType(), c.Imm, bits, c.IL, c.PL)
 		return nil
